@@ -176,6 +176,7 @@ def check_case(case, sess: Session):
             sess.violation("write-raises:" + type(ex).__name__, case, repr(ex)[:200])
             return
         sess.count("snapshots_written")
+        sess.sample({k: case[k] for k in ("bounds", "edges_as", "nodes_as", "agent", "turn", "version", "meta")} | {"edges": case["edges"][:4], "weights": case["weights"][:3]})
         if not nan_eq(gel, gel0):
             sess.violation("write-mutates-state-graph", case, None)
         body1 = open(path, "rb").read()
